@@ -3,6 +3,7 @@ package interp
 import (
 	"fmt"
 	"go/types"
+	"sort"
 
 	"symgo/term"
 )
@@ -249,7 +250,11 @@ func (in *Interp) newMapIter(m *mapObj) *mapIter {
 		}
 		if in.path != nil && in.path.nondetMapOrder && len(it.order) > 1 {
 			it.order = in.permute(it.order)
-		} else if in.path != nil && in.path.reverseMapOrder {
+		} else if in.path != nil && in.path.keyMapOrder != 0 && sortByKey(it.order, in.path.keyMapOrder < 0) {
+			// ordered by key (ascending or descending): unlike the two
+			// insertion-based orders this one does not cancel out when a
+			// map is filled by ranging over another map
+		} else if in.path != nil && (in.path.reverseMapOrder || in.path.keyMapOrder < 0) {
 			for i, j := 0, len(it.order)-1; i < j; i, j = i+1, j-1 {
 				it.order[i], it.order[j] = it.order[j], it.order[i]
 			}
@@ -292,4 +297,43 @@ func (in *Interp) permute(es []*mapEntry) []*mapEntry {
 		rest = append(rest[:k], rest[k+1:]...)
 	}
 	return append(out, rest...)
+}
+
+// sortByKey orders the entries by their (concrete string or integer) keys;
+// false if some key is neither, in which case the order is left untouched.
+func sortByKey(es []*mapEntry, desc bool) bool {
+	keys := make([]string, len(es))
+	for i, e := range es {
+		switch k := e.key.(type) {
+		case str:
+			c, ok := k.concrete()
+			if !ok {
+				return false
+			}
+			keys[i] = c
+		case T:
+			if k.Op != term.Const {
+				return false
+			}
+			keys[i] = fmt.Sprintf("%020d", k.Val^(1<<63))
+		default:
+			return false
+		}
+	}
+	idx := make([]int, len(es))
+	for i := range idx {
+		idx[i] = i
+	}
+	sort.SliceStable(idx, func(a, b int) bool {
+		if desc {
+			return keys[idx[a]] > keys[idx[b]]
+		}
+		return keys[idx[a]] < keys[idx[b]]
+	})
+	out := make([]*mapEntry, len(es))
+	for i, j := range idx {
+		out[i] = es[j]
+	}
+	copy(es, out)
+	return true
 }
